@@ -178,7 +178,12 @@ def run_case(prop, i, mon, ctx):
     mon.cur_class = classes[i % len(classes)]
     mon.cur_desc = None
     reseed_globals(ctx.seed, i)
-    case = prop.gen(rng, i, ctx)
+    try:
+        case = prop.gen(rng, i, ctx)
+    except Exception as e:   # a generator failure is a harness error: visible, never silent, and does not kill the shard
+        mon.evaluations += 1
+        mon.violation('harness:exception', {'exception': repr(e)[:300], 'trace': traceback.format_exc()[-1200:]}, mechanism='workload generator failed ' + type(e).__name__)
+        return None
     try:
         mon.cur_desc = prop.describe(case) if hasattr(prop, 'describe') else jsonable(case)
     except Exception:
